@@ -2,7 +2,7 @@
    Statements only (proofs in Event/Repr_proofs.v).
    `sstep` is the dictionary-of-sets model; `ostep`/`xstep` model the XML backed classes
    (EventElement, ParsedEvent): cached views with write-through callbacks over the XML content. *)
-From EdxmlVerif Require Import Base.Prelude Base.Bytes Event.Repr Event.Repr_proofs.
+From EdxmlVerif Require Import Base.Prelude Base.Bytes Event.Repr Event.Repr_proofs Event.Repr_copy.
 
 (* For every initial content, both XML backed classes and EVERY sequence of public mutations:
    each call raises exactly when the model says so, afterwards the mapping view / getters show the
@@ -45,6 +45,41 @@ Theorem C07_copy_independent : forall h o j oj, hinv h -> hget h j = Some oj ->
   hget (hstep CopyFixed h o) j = Some oj.
 Proof. exact hstep_frame. Qed.
 Print Assumptions C07_copy_independent.
+
+(* A fresh copy shows the content of its original.  In every heap reached from one event (its properties and
+   attachments given as dictionaries: every name once) by ANY history of public mutations and copies, copying
+   event i appends an event whose views show exactly what the views of event i show (every property, every
+   attachment, parents, type, source, foreign attributes, same class), whose XML holds exactly that content,
+   and leaves event i itself as it was.  The proof needs the invariant `wf` (cached views and XML groups hold
+   every name once; Event/Repr_copy.v shows every mutation and copy keeps it): EventElement copies are built
+   from the non-empty entries of the cached views, and an emptied entry must not hide a second one. *)
+Theorem C07_copy_shows_same_content : forall k s0 ops i o,
+  NoDup (akeys (s_props s0)) -> NoDup (akeys (s_atts s0)) ->
+  let h := hrun CopyFixed [fresh k s0 0] ops in
+  hget h i = Some o ->
+  exists c, hget (hstep CopyFixed h (Copy i)) (length h) = Some c /\
+            same_content o c /\ coherent c /\
+            (forall p, xml_props c p = view_props o p) /\ (forall a, xml_atts c a = view_atts o a) /\
+            hget (hstep CopyFixed h (Copy i)) i = Some o.
+Proof. exact copy_shows_original. Qed.
+Print Assumptions C07_copy_shows_same_content.
+
+(* ... and the invariant is needed: a cached view holding a name twice, the first entry emptied, would make the
+   copy show the hidden entry. *)
+Theorem C07_copy_needs_distinct_names_refuted :
+  exists o, (forall p, view_props o p = xml_props o p) /\
+            view_props (copy_obj CopyFixed o 1) wp <> view_props o wp.
+Proof.
+  exists dup_obj. split.
+  - intro p. unfold view_props, xml_props; cbn. destruct (str_eqb p wp); reflexivity.
+  - destruct copy_needs_distinct_names as [-> ->]. discriminate.
+Qed.
+Print Assumptions C07_copy_needs_distinct_names_refuted.
+
+Example C07_copy_nonvacuous :
+  let h := hrun CopyFixed [fresh KElement w_s0 0] [Op 0 (ObjClear wp); Op 0 (ObjAdd wp [98]%N); Copy 0] in
+  option_map (fun c => (view_props c wp, xml_props c wp)) (hget h 1) = Some ([[98]%N], [[98]%N]).
+Proof. vm_compute. reflexivity. Qed.
 
 (* The pre-fix EventElement.copy() (deepcopy keeps the callbacks of the original) violates both clauses: *)
 Theorem C07_deepcopy_refuted :
